@@ -9,12 +9,10 @@ import Ggql.Props.C05Data
 import Ggql.Gen.Coerce
 namespace Ggql.Coerce
 
-/-- D08: Int arguments are narrowed to 32 bits without a range check.
-    D46: Float arguments: float64 → float32 overflow to ±Inf, non-finite values passed through. -/
+/-- `CoerceIn`: no pinned deviation is left.  D08 (Int arguments narrowed without a range check) and D46
+(Float arguments overflowing to ±Inf, non-finite values passed through) are repaired: every arm of every
+built-in scalar's `CoerceIn` passes the soundness test. -/
 def pinnedIn : Scalar → List (Kind × Action)
-  | .int => []          -- D08 repaired (d98176a): the wide integer arms are range-checked
-  | .float => [(.f32, .asIs), (.f64, .conv .f32)]
-  | .float64 => [(.f32, .conv .f64), (.f64, .asIs), (.str, .parseFloatKeep .f64)]
   | _ => []
 
 def outTable : Scalar → Table
@@ -79,6 +77,33 @@ theorem C04_tables :
     allScalars.all (fun s =>
       (unsoundIn s (inTable s)).all (fun p => (pinnedIn s).contains p) &&
       ((inTable s).dflt == .failNil) && ((inTable s).formatTime == false)) = true := by decide
+
+/-- every arm a `CoerceIn` table can select passes the test when the table has no unsound arm and its
+default arm rejects -/
+theorem armFor_sound (s : Scalar) (tbl : Table) (hu : unsoundIn s tbl = []) (hd : tbl.dflt = .failNil) (k : Kind) :
+    armSoundInT s k (tbl.armFor k) = true := by
+  rcases armFor_mem tbl k with h | h
+  · rw [h, hd]; simp [armSoundInT, armSoundIn]
+  · have := List.filter_eq_nil_iff.mp hu _ h
+    simpa using this
+
+/-- **C04_current.**  On the source as it is now, unconditionally: for every built-in scalar, every
+well-formed Go value (literal, JSON-decoded variable value, default) and every behaviour of the runtime's
+floats, `CoerceIn` either refuses the value — the resolver is then not invoked — or yields a value of the
+declared scalar that denotes what the client wrote (Int within 32 bits and equal to the supplied number,
+Float finite, ID the decimal rendering). -/
+theorem C04_current {F : Type} (ext : Ext F) (laws : ExtLaws ext) (s : Scalar) (v : GoVal F) (hw : v.wf = true) :
+    checkIn ext s v (coerce ext (inTable s) v) = true := by
+  have ht := C04_tables
+  simp only [List.all_eq_true, Bool.and_eq_true, beq_iff_eq] at ht
+  have hs : s ∈ allScalars := by cases s <;> simp [allScalars]
+  obtain ⟨⟨hu, hd⟩, hf⟩ := ht s hs
+  have hu' : unsoundIn s (inTable s) = [] := by
+    apply List.eq_nil_iff_forall_not_mem.mpr
+    intro p hp
+    have := hu p hp
+    simp [pinnedIn] at this
+  exact C04_leaf ext laws s (inTable s) v (by simpa using hf) (armFor_sound s _ hu' hd v.kind) hw
 
 /-- non-vacuity: the sound region is not empty — e.g. the Int output arms for the small integer kinds
 and the Boolean/String pass-through arms pass the test on the generated tables -/
